@@ -262,7 +262,8 @@ class CoseSecOpCtx:
     def check_secblk(self) -> bool:
         ''' Initial consistency check of :py:attr:`sec_blk`
         '''
-        type_ids = [param.type_code for param in self.sec_blk.payload.parameters]
+        # the parameter field is absent when the context flags say so
+        type_ids = [param.type_code for param in self.sec_blk.payload.parameters or []]
         if len(set(type_ids)) != len(type_ids):
             LOGGER.error('Duplicate parameter IDs')
             return False
@@ -286,7 +287,7 @@ class CoseSecOpCtx:
         self.addl_protected = b''
         addl_unprotected = b''
         self.aad_scope = {0: 1, -1: 1, -2: 1}
-        for param in self.sec_blk.payload.parameters:
+        for param in self.sec_blk.payload.parameters or []:
             if param.type_code == 3:
                 self.addl_protected = bytes(param.value)
             elif param.type_code == 4:
